@@ -301,10 +301,10 @@ impl Faults {
                "payload_stride": self.tier.pick(5, 1), "hash_table_stride": self.tier.pick(3, 1), "offsets_per_region_class": regions,
                "archive_ids": self.built.iter().map(|b| b.spec.id.clone()).collect::<Vec<_>>()})
     }
-    /// SFILE_VERIFY_ALL_FILES is exercised by space `intact` only: it is a loop over SFileVerifyFile,
-    /// which the fault space calls directly for every judged file, and it currently never returns.
+    /// SFILE_VERIFY_ALL_FILES is observed on every faulted archive too (it used to dead-lock; repaired):
+    /// it is a detector of its own and must agree with the per-file verification
     fn all_files(&self) -> bool {
-        false
+        true
     }
     fn baseline(&self, a: usize) -> &Obs {
         self.base[a].get_or_init(|| {
@@ -397,6 +397,19 @@ fn judge(b: &Built, span: &Span, base: &Obs, o: &Obs) -> (Vec<(String, String)>,
                             det.push(format!("SFileVerifyFile(flags={:#x}) fails", VFLAGS[j]));
                         }
                     }
+                }
+                // the whole-archive verification with ALL_FILES covers every file: when the per-file
+                // verification of this (altered) file fails, the whole-archive one must not succeed
+                let per_file_fails = det.iter().any(|d| d.starts_with("SFileVerifyFile"));
+                // (only where the archive can name its files: without a listfile ALL_FILES has nothing to loop over)
+                // and only for faults inside the file's own stored bytes (a table fault may change what the archive
+                // lists) and for ordinary files (the tool documents that it skips the internal "(name)" files)
+                let own = span.file == Some(k) && !(b.files[k].name.starts_with('(') && b.files[k].name.ends_with(')'));
+                if own && b.spec.listfile && per_file_fails && base.varch_all == Some(true) && o.varch_all == Some(true) {
+                    viols.push((
+                        format!("{}: fault in {} -> SFileVerifyArchive(SFILE_VERIFY_ALL_FILES) still succeeds although SFileVerifyFile reports the altered file as damaged", protection_for(b, span), span.region),
+                        format!("file {} [{}]: {}", b.files[k].name, b.files[k].storage, det.join(", ")),
+                    ));
                 }
                 if det.is_empty() {
                     class = "VIOLATION";
